@@ -32,7 +32,12 @@ def work(args):
         for p in props:
             c0, s0, e0 = basekeys[p]
             c1, s1, e1 = k1[p]
-            nk = lambda k: (k.split('|')[0], k.split('|')[-1])
+            def nk(k):
+                # (rule, construct); a construct that names the function it sits in is compared without that name, so that
+                # a finding the base already has is not new because the twin moved the same code into a helper
+                parts = k.split('|')
+                fn = parts[1].split('.')[-1] if len(parts) > 2 else ""
+                return (parts[0], " ".join(w for w in parts[-1].split() if w != fn))
             b0 = {nk(k) for k in s0}
             new = sorted(k for k in s1 - s0 if nk(k) not in b0)
             if new:
